@@ -55,10 +55,12 @@ def hit(
             _tags = [get_cache_key(func, tag, args, kwargs) for tag in tags]
 
             call_args = (func, args, kwargs, backend, _cache_key, ttl, condition, _tags)
+            # a callable ttl is resolved before it reaches the backend (the hit counter lives as long as a result would)
+            _counter_ttl = ttl_to_seconds(ttl, *args, **kwargs, with_callable=True)
 
             cached, hits = await asyncio.gather(
                 backend.get(_cache_key, default=_empty),
-                backend.incr(_cache_key + ":counter", expire=ttl, tags=_tags),
+                backend.incr(_cache_key + ":counter", expire=_counter_ttl, tags=_tags),
             )
             if cached is not _empty and hits and hits <= cache_hits:
                 _ttl = ttl_to_seconds(ttl, *args, **kwargs, result=cached, with_callable=True)
